@@ -105,6 +105,26 @@ impl DataType {
     }
 }
 
+impl DataType {
+    /// Whether a type written in SQL is supported, i.e. can be converted with `DataType::from`.
+    pub fn is_supported(kind: &crate::parser::DataType) -> bool {
+        use crate::parser::DataType::*;
+        match kind {
+            Char(_) | Varchar(_) | String(_) | Text => true,
+            Bytea | Binary(_) | Varbinary(_) | Blob(_) => true,
+            Float(_) | Double | SmallInt(_) | Int(_) | Integer(_) | BigInt(_) | Boolean => true,
+            Decimal(_) | Date | Interval => true,
+            Timestamp(_, sqlparser::ast::TimezoneInfo::None | sqlparser::ast::TimezoneInfo::Tz) => true,
+            Custom(name, items) => {
+                name.to_string().to_lowercase() == "vector"
+                    && items.len() == 1
+                    && items[0].parse::<usize>().is_ok()
+            }
+            _ => false,
+        }
+    }
+}
+
 impl From<&crate::parser::DataType> for DataType {
     fn from(kind: &crate::parser::DataType) -> Self {
         use sqlparser::ast::ExactNumberInfo;
